@@ -26,8 +26,19 @@ def large_exchanges(ctx):
     cannot reach."""
     binary = vlib.build_harness(ctx, "h-ec")
     out = ctx.path("large_exchange.json")
-    # every tenth document is deleted: 55 557 / 111 112 / 166 668 / 222 224 documents are 50 001 / 100 001 / 150 001 / 200 001 modified ones (multiples of the poller's fetch limit, plus one)
-    sizes = "1,2,3,999,1000,1001,4097,10001,55556,55557,111112,166668" if ctx.tier == "quick" else "1,2,3,9,10,11,999,1000,1001,4097,4999,9999,10000,10001,20001,49999,50000,50001,55555,55556,55557,111111,111112,166668,222224,333335"
+    # the harness deletes every tenth document (ids 1, 11, 21, ...), so N documents make N - ceil(N / 10) modified ones - and it is the
+    # number of MODIFIED documents (what one fetch request asks for, what one reply carries) that sits on round numbers: N is
+    # chosen so that the modified part has m documents, m = a round number (powers of two, multiples of 500 / 1 000 / the poller's
+    # fetch limit of 50 000) and one more
+    def total_for(m):
+        n = m
+        while n - (n + 9) // 10 != m:
+            n += 1
+        return n
+    modified = [1, 2, 3, 100, 101, 256, 257, 500, 501, 512, 513, 1000, 1001, 1024, 1025, 2049, 4097, 5001, 10001, 50000, 50001, 100001, 150001]
+    if ctx.tier != "quick":
+        modified += [9, 10, 11, 127, 128, 129, 1500, 1501, 2000, 2001, 2500, 2501, 4999, 5000, 8193, 9999, 10000, 16385, 20001, 25001, 32769, 49999, 65537, 100000, 200001, 300001]
+    sizes = ",".join(str(total_for(m)) for m in sorted(set(modified)))
     # differences of removals only, of sizes just past the round numbers a batching of removals may use (the poller hands all of them over at once today)
     removals = "1001,4097,10001,20001" if ctx.tier == "quick" else "2,3,1001,1025,4097,8193,10001,16385,20001,32769,50001,65537,100001"
     vlib.run_harness(ctx, [binary, "large-exchange", "--out", out, "--sizes", sizes, "--removal-sizes", removals], timeout=3000)
@@ -38,7 +49,7 @@ def large_exchanges(ctx):
         rep["evaluations"], rep["violation_count"]))
     for v in rep["violations"][:3]:
         ctx.violations.append(dict(engine="h-ec large-exchange", **v))
-    return {"exchanges_with_one_fault": rep.get("faulty_exchanges"), "exchanges_with_a_write_slower_than_the_progress_watcher": rep.get("slow_exchanges"),
+    return {"modified_documents_per_exchange": sorted(set(modified)), "exchanges_with_one_fault": rep.get("faulty_exchanges"), "exchanges_with_a_write_slower_than_the_progress_watcher": rep.get("slow_exchanges"),
             "of_which_given_up_by_the_watcher_before_the_write_ended": rep.get("slow_exchanges_given_up_by_the_watcher"), "exchanges": rep["evaluations"], "entries": rep["entries"], "sizes": rep["sizes"], "removal_only_sizes": rep.get("removal_sizes"), "exchanges_that_leave_a_difference": rep["violation_count"]}
 
 
